@@ -3,7 +3,7 @@
  "name": "gen32_test_clear_range",
  "props": ["C16"],
  "level": "U/k",
- "tier": "wip",
+ "tier": "quick",
  "harness": "h_g32_tcr",
  "enforce": ["ext2fs_test_clear_generic_bitmap_range"],
  "replace": ["ext2fs_mem_is_zero"],
@@ -12,7 +12,7 @@
  "functions": ["lib/ext2fs/gen_bitmap.c:ext2fs_test_clear_generic_bitmap_range"],
  "assumes": ["bit array capped at 2^20 bits (object-size cap); geometry, content, start, len otherwise symbolic",
              "the range lies inside the bit array: start >= bitmap start, start + len - 1 <= real_end, no wrap (checked by the callers ext2fs_test_block_bitmap_range / ext2fs_test_inode_bitmap_range before the call)",
-             "ext2fs_mem_is_zero replaced by its contract (1 => every byte of the region is zero, stated at the ghost byte; 0 => some byte of the region is non-zero, witness chosen by the verifier; the region must be readable) - proved in unit bitmap_ba/mem_is_zero",
+             "ext2fs_mem_is_zero replaced by its contract specs/c16_ba_mem_is_zero.h (1 => every byte of the region is zero, stated at the ghost byte; 0 => some byte of the region is non-zero, witness index in a ghost - same statement with an index instead of an address; the region must be readable) - enforced on the real function by unit bitmap_ba/mem_is_zero",
              "completeness direction (answer 0 only if a member exists) is checked on an otherwise all-zero array with ONE arbitrary stray bit outside the range"],
  "native": false
 }
@@ -22,7 +22,7 @@
  "name": "gen32_mark_range",
  "props": ["C16"],
  "level": "U",
- "tier": "wip",
+ "tier": "quick",
  "harness": "h_g32_mrange",
  "defines": ["MR_OP=0"],
  "enforce": ["ext2fs_mark_block_bitmap_range"],
@@ -40,7 +40,7 @@
  "name": "gen32_unmark_range",
  "props": ["C16"],
  "level": "U",
- "tier": "wip",
+ "tier": "quick",
  "harness": "h_g32_mrange",
  "defines": ["MR_OP=1"],
  "enforce": ["ext2fs_unmark_block_bitmap_range"],
@@ -92,8 +92,10 @@ static int wf32(ext2fs_generic_bitmap bm)
  * Nothing is written. */
 #define GHOST_BYTE_IN(mem, len) (__CPROVER_same_object(verif_p1, (mem)) && verif_p1 >= (const unsigned char *)(mem) && \
 				 verif_p1 < (const unsigned char *)(mem) + (len))
-/* contract of the callee (proved in bitmap_ba/mem_is_zero); verif_p1 = address of the byte holding the ghost bit,
- * verif_g4 = index of a non-zero byte when the answer is 0 */
+/* contract of the callee: the one of specs/c16_ba_mem_is_zero.h (enforced on the real function by unit
+ * bitmap_ba/mem_is_zero), with the non-zero witness given as an INDEX (verif_g4) instead of an address (verif_p2) - an
+ * arbitrary address in an assumed `ensures` trips the pointer-relation checks; the two forms are equivalent
+ * (verif_p2 = mem + verif_g4).  verif_p1 = address of the byte holding the ghost bit. */
 int ext2fs_mem_is_zero(const char *mem, size_t len)
 	REQUIRES(len == 0 || __CPROVER_r_ok(mem, len))
 	ENSURES(RET == 0 || RET == 1)
